@@ -1,3 +1,4 @@
 import XPathV.Theorems.C01
 #print axioms XPathV.Theorems.C01.axis_table_ok
 #print axioms XPathV.Theorems.C01.shortcut_condition_ok
+#print axioms XPathV.Theorems.C01.shortcut_guard_from_source
